@@ -20,7 +20,7 @@ RUN_WALL_WATCHDOG_S = 600.0
 CALL_WALL_WATCHDOG_S = 240.0
 
 TIERS = {
-    "quick":    {"runs": 4200, "chunk": 4, "wall_cap_s": 80, "max_ops": 24, "ilp_share": 0.06, "b_max": 150000,
+    "quick":    {"runs": 4200, "chunk": 4, "wall_cap_s": 80, "max_ops": 24, "ilp_share": 0.06, "b_max": 25000,
                  "det_sample_min": 8, "det_sample_frac": 0.01, "max_reports": 3, "shrink_candidates": 120},
     "thorough": {"runs": 30000, "chunk": 8, "wall_cap_s": 1700, "max_ops": 40, "ilp_share": 0.10, "b_max": 400000,
                  "det_sample_min": 24, "det_sample_frac": 0.003, "max_reports": 4, "shrink_candidates": 300,
@@ -178,6 +178,10 @@ def _gen_call(r, pool, cfg, p_fault, focus=None):
         k = r.choices([1, 2, 3, 4, 5], weights=[6, 40, 32, 16, 6])[0]
         if n > 8 and algo not in ("greedy", "roundrobin", "multifit", "kk", "balanced", "cbldm", "cg"):
             algo = r.choice(["greedy", "roundrobin", "multifit", "kk", "balanced", "cbldm", "cg"])     # keep big containers cheap
+        if algo == "ilp" and n > 6:
+            algo = r.choice(["greedy", "kk", "multifit", "cg"])       # keep the MIP models small: CBC needs 40 s for 8 items x 2 copies x 5 bins
+        if algo == "ilp":
+            k = min(k, 4)
         if algo in ("snp", "rnp"):
             k = r.choice([2, 3, 3, 4, 5]) if n <= 7 else r.choice([2, 3])
         if algo == "dp":
@@ -200,7 +204,7 @@ def _gen_call(r, pool, cfg, p_fault, focus=None):
                 op["kwargs"]["constraint"] = {"kind": r.choice(["mineq", "maxle", "minge"]),
                                               "c": r.choice([0, 1, tot // max(k, 1), tot, tot + 1, -1, r.randint(0, max(1, tot))])}
             if r.random() < 0.25:
-                op["kwargs"]["copies"] = r.choice([1, 2, 2, 0])
+                op["kwargs"]["copies"] = r.choice([1, 2, 2, 0]) if k <= 3 else r.choice([1, 1, 0])
             elif r.random() < 0.2:
                 op["kwargs"]["copies"] = [r.choice([0, 1, 1, 2]) for _ in range(n)]       # a caller-owned list: must come back untouched
             if r.random() < 0.2:
@@ -272,9 +276,11 @@ def _gen_call(r, pool, cfg, p_fault, focus=None):
     return op
 
 
-def _gen_edit(r, pool):
+def _gen_edit(r, pool, focus=None):
     """The caller changes one of its own containers between two calls."""
     c = r.choice(pool)
+    if focus and focus.get("storm") and focus.get("pool") is not None and r.random() < 0.8:
+        c = next(x for x in pool if x["id"] == focus["pool"])
     kind = r.choice(["set", "set", "set", "append", "pop"])
     e = {"op": "edit", "pool": c["id"], "kind": kind, "pos": r.randrange(16), "value": r.choice([0, 1, 5, 17, 40, 123, 300])}
     return e
@@ -307,7 +313,7 @@ def _gen_retry(r, pool, failed):
             cands = [b for b in cands if b != op["param"]]
             op["param"] = r.choice(cands)
         elif op.get("algo") not in ("cbldm",):
-            op["param"] = min(5, max(1, op["param"] + r.choice([-1, 1, 1])))
+            op["param"] = min(4 if op.get("algo") == "ilp" else 5, max(1, op["param"] + r.choice([-1, 1, 1])))
     return op
 
 
@@ -342,12 +348,21 @@ def gen_plan(seed, tier):
         # varied size parameters - the pattern that exposes work-in-progress state a failed call leaves behind
         focus = {"algo": r.choice([a for a in PART_ALGOS if a != "ilp"] + PACK_ALGOS + PACK_ALGOS + COVER_ALGOS), "pool": r.choice(pool)["id"], "storm": True}
         p_fault, p_retry, p_repeat = 0.5, 0.9, 0.1
+    elif r.random() < 0.2:
+        # swarm mode "edit storm": one search-based algorithm on one NAMED container (dict / names+valueof) whose values
+        # the caller keeps editing in place between the calls - exposes anything remembered per object, per name or per
+        # value function (bound methods of the same dict compare equal)
+        named = [c for c in pool if c["form"] in ("dict", "names")]
+        if named:
+            focus = {"algo": r.choice(["snp", "rnp", "ckk", "kk", "dp", "cg", "multifit", "greedy", "bc", "ffd", "bfd", "twothirds"]),
+                     "pool": r.choice(named)["id"], "storm": True}
+            p_edit, p_fault, p_repeat = 0.4, 0.05, 0.2
     for i in range(nops):
         if ops and ops[-1]["op"] == "call" and ops[-1].get("fault") and ops[-1]["fault"]["kind"] != "abandon" and r.random() < p_retry:
             ops.append(_gen_retry(r, pool, ops[-1]))
             continue
         if ops and r.random() < p_edit:
-            ops.append(_gen_edit(r, pool))
+            ops.append(_gen_edit(r, pool, focus))
             continue
         if ops and r.random() < p_scribble:
             sc = _gen_scribble(r, ops)
